@@ -268,7 +268,8 @@ def collect_forces(f, num_atom, hook, force_pos, word=None):
             try:
                 forces.append([float(elems[i]) for i in force_pos])
             except ValueError:
-                forces = []
+                # A broken line inside a force block (e.g., truncated output)
+                # leaves an incomplete block, which check_forces refuses.
                 break
         else:
             return False
@@ -291,6 +292,11 @@ def iter_collect_forces(filename, num_atom, hook, force_pos, word=None, max_iter
 
         for i in range(max_iter):  # noqa B007
             forces = collect_forces(f, num_atom, hook, force_pos, word=word)
+            if forces is False:
+                # The block after the last hook is cut short (e.g., truncated
+                # output): do not fall back to forces of a previous block.
+                forces = []
+                break
             if not forces:
                 forces = prev_forces[:]
                 break
